@@ -178,6 +178,39 @@ def lockSites : List (String × List String) := [
   ("lru.rs:evict", ["cache"])
 ]
 
+/-- lock named by a field at an acquisition site of `file` (`task_queue` inside disk_read_scheduler.rs is the read
+    scheduler's own queue) -/
+def fieldLockIn (file f : String) : Option Lock :=
+  if file == "disk_read_scheduler.rs" && f == "task_queue" then some drsQueue else fieldLock f
+
+/-- a held → acquired pair extracted from the source respects the order: both fields are locks of the order and the
+    rank goes strictly up (acquiring a lock that is already held — a self-deadlock of `std::sync::Mutex` — does not) -/
+def pairRanked (file a b : String) : Bool :=
+  match fieldLockIn file a, fieldLockIn file b with
+  | some x, some y => decide (rank x < rank y)
+  | _, _ => false
+
+/-- one extracted pair `held>acquired[@callee]` of function `key` = `<file>:<fn>`; `none` = in order -/
+def judgePair (key pair : String) : Option String :=
+  let file := (key.splitOn ":").headD ""
+  let fn := ((key.splitOn ":").drop 1).headD ""
+  let (pr, via) := match pair.splitOn "@" with
+    | [p, c] => (p, " (via " ++ c ++ ")")
+    | _ => (pair, "")
+  match pr.splitOn ">" with
+  | [a, b] => if pairRanked file a b then none else some ("lock-order " ++ fn ++ ": " ++ a ++ " before " ++ b ++ via)
+  | _ => some ("lock-order " ++ fn ++ ": malformed pair " ++ pair)
+
+/-- the specification's judgement of the held → acquired pairs of one function -/
+def judgePairs (key : String) (pairs : List String) : String :=
+  match pairs.findSome? (judgePair key) with
+  | some why => "BAD " ++ why
+  | none => "OK"
+
+/-- the wait-for relation generated by a set of extracted pairs (file, held, acquired) -/
+def PairEdge (pairs : List (String × String × String)) (x y : Lock) : Prop :=
+  ∃ p ∈ pairs, fieldLockIn p.1 p.2.1 = some x ∧ fieldLockIn p.1 p.2.2 = some y
+
 /-- the driver's judgement of one extracted function -/
 def judgeSite (key : String) (fields : List String) : String :=
   match lockSites.find? (fun e => e.1 == key) with
